@@ -70,6 +70,18 @@ Theorem tax_burned : forall tok nonce s s',
 Proof. exact execute_burns. Qed.
 Print Assumptions tax_burned.
 
+(** Between send and cancel / execution the record is never modified: whatever is pending (pool or
+    batches) at the end of any history either was pending at the start or carries exactly the amount
+    and the tax computed by the accepted send that created it. *)
+Theorem tax_record_immutable : forall ops s t,
+  tax_wf s -> Forall op_wf ops -> In t (pending (run s ops)) ->
+  In t (pending s) \/
+  exists pre h snd tok a mal, In (pre, Send h snd tok a mal, Ok) (trace s ops) /\
+    t = {| t_id := last_id pre + 1; t_sender := snd; t_tok := tok; t_amount := a;
+           t_tax := spec_tax pre snd tok a |}.
+Proof. exact pending_origin. Qed.
+Print Assumptions tax_record_immutable.
+
 (** 3. Over every history (sends at arbitrary heights, interleaved with cancels, batches, executions,
     failed operations and governance changes of anything but this token's limit): the accepted
     transfers of the senders the limiter looks at, grouped into windows by the restart rule
